@@ -230,7 +230,8 @@ class ValidationChecks:
             template = r'{} !~= {}'
         if delta is not None:
             d = abs(a - b)
-            return self.check_true(d <= delta, a, b, template=template, **kwargs)
+            return self.check_true(
+                d <= delta, a, b, template=template, msg=msg, **kwargs)
         ar = round(a, places)
         br = round(b, places)
         return self.check_true(
